@@ -501,7 +501,7 @@ fn main() {
     let recorded = recorded_traffic();
     exhaustive(&mut ctx);
     ctx.arm("mutants", 1800.0);
-    let n = ctx.volume(30_000, 1_500_000, 40, 3_000);
+    let n = ctx.volume(30_000, 1_500_000, 20, 3_000);
     ctx.run_cases("mutants6", n, |ctx, _i, rng| {
         let (p, _c) = gen6(rng, &recorded);
         let mut wbuf = [0u8; 1400];
